@@ -143,7 +143,7 @@ func replay(in, out string) {
 			}
 			var ec, pan string
 			st, ec, pan = loadLegacy(c, b, false)
-			t.Emit(legacyEv(c, layout, len(b), ec, pan))
+			t.Emit(legacyEv(c, layout, b, ec, pan))
 		case "index":
 			keys := toStrings(e["keys"])
 			offs := []int64{}
